@@ -236,3 +236,23 @@ class C05(E1Prop):
                 H("prop_C05_n2_nobmi2", "prop_C05.cpp", shards=8, defines=["VF_GROUP=1"]),
                 H("prop_C05_n4", "prop_C05.cpp", shards=9, defines=["VF_GROUP=2"], flags=b),
                 H("prop_C05_stacks", "prop_C05.cpp", shards=9, defines=["VF_GROUP=3"], flags=b)]
+
+
+@prop("C12")
+class C12(E1Prop):
+    pid = "C12"
+    rule = ("cases = operation sequences over a pool of field slots and a fixed catalogue of 7 field types (row-major / Morton / Hilbert 2-D float1, "
+            "row-major 3-D double2, nearest_neighbour<strided>, affine<nearest_neighbour<strided>>, raw array<float2>); operations = construct, "
+            "default-construct, write through a view, copy/move construction, copy/move assignment (self included), converting copy/move between "
+            "layouts, dump->load, destroy; operands are decoded modulo the pool so every history is executable. All histories up to length 3 over 2 "
+            "slots x 2 types (quick; length 4 over 3 slots thorough) are enumerated; rapidcheck histories up to 60 operations over 4 slots. Oracle: a "
+            "model pool of optional N-D arrays subjected to the same history, every live specified field read at every coordinate after every "
+            "step; ASan for double free / use after free, LeakSanitizer checked per history. Moved-from and default-constructed fields are only "
+            "assigned to or destroyed. non-trivial = history writes to a copy (or to the original after a copy) and reads the other side "
+            "afterwards; distinct by operation-sequence hash")
+    min_eval = 5000
+    level_text = ("Model-based (stateful) property testing: generated operation histories executed against the library and against a plain-array model, "
+                  "complete enumeration of short histories, sanitizers as ownership oracle.")
+
+    def harnesses(self, tier):
+        return [H("prop_C12", "prop_C12.cpp", shards=16)]
